@@ -34,7 +34,16 @@ def analyse(prop, tier, root=None):
     data = DataSet(repo.root)
     ctx = report.Ctx(prop, repo, tier, data)
     mod = load_rules(prop)
-    mod.run(ctx)
+    ctx.incomplete = None
+    try:
+        mod.run(ctx)
+    except AnalysisError as e:
+        # A rule stopped understanding the code *after* specific violations were already established: those
+        # are reported (exit 1); with no finding to show, the run is an analysis error (exit 2).
+        if not ctx.findings:
+            raise
+        ctx.incomplete = e
+        ctx.notes.append("analysis stopped early (%s); the findings reported are those established before" % e)
     return ctx, mod
 
 
@@ -57,6 +66,8 @@ def main(argv=None):
             raise AnalysisError("unknown property id %r" % prop)
         ctx, mod = analyse(prop, args.tier, args.repo)
         stale = report.apply_known(ctx)
+        if ctx.incomplete is not None and not [f for f in ctx.findings if not f.known]:
+            raise ctx.incomplete
         selftest_result = None
         if args.tier == "thorough" and not args.replay:
             from . import selftest
